@@ -177,7 +177,12 @@ class FileParser:
                 f"{filename} doesn't appear "
                 + "to be a language this tool can process",
             )
-        with open(filename, errors="replace") as source_file:
+        # "utf-8-sig" is UTF-8 that skips a byte-order mark at the start.
+        with open(
+            filename,
+            encoding="utf-8-sig",
+            errors="replace",
+        ) as source_file:
             groups = {
                 "code": LineGroup(),
                 "directive": LineGroup(),
